@@ -20,3 +20,67 @@ def install(order=1):
     if not _installed:
         QuicStream.__hash__ = _stream_hash
         _installed = True
+
+
+# ----------------------------------------------------------------------------- ECDSA signature length
+# An ECDSA signature is DER-encoded: 70, 71 or 72 bytes for P-256 depending on the random nonce.  The length
+# decides how the TLS flight is cut into packets, so two executions of the same schedule could differ in
+# the number of datagrams (a replayed prefix "diverges").  The harness owns that source: the certificate
+# keys it hands to the endpoints re-sign until the encoding has the most common length.
+class _Lazy:
+    cls = None
+
+
+def fixed_length_ec_key(key, want=None):
+    from cryptography.hazmat.primitives.asymmetric import ec
+
+    if _Lazy.cls is None:
+        _Lazy.cls = _mk_fixed_class()
+    if not isinstance(key, ec.EllipticCurvePrivateKey) or isinstance(key, _Lazy.cls):
+        return key
+    return _Lazy.cls(key, want)
+
+
+def _mk_fixed_class():
+    from cryptography.hazmat.primitives.asymmetric import ec
+
+    class FixedLenECKey(ec.EllipticCurvePrivateKey):
+        def __init__(self, key, want=None):
+            self._k = key
+            # 2 * coordinate size + 6 bytes of DER framing + 1 (one of r, s has its top bit set) is the mode
+            self._want = want or (2 * ((key.curve.key_size + 7) // 8) + 7)
+
+        def sign(self, data, signature_algorithm):
+            for _ in range(200):
+                sig = self._k.sign(data, signature_algorithm)
+                if len(sig) == self._want:
+                    return sig
+            return sig
+
+        def exchange(self, algorithm, peer_public_key):
+            return self._k.exchange(algorithm, peer_public_key)
+
+        def public_key(self):
+            return self._k.public_key()
+
+        @property
+        def curve(self):
+            return self._k.curve
+
+        @property
+        def key_size(self):
+            return self._k.key_size
+
+        def private_numbers(self):
+            return self._k.private_numbers()
+
+        def private_bytes(self, encoding, format, encryption_algorithm):
+            return self._k.private_bytes(encoding, format, encryption_algorithm)
+
+        def __copy__(self):
+            return self
+
+        def __deepcopy__(self, memo):
+            return self
+
+    return FixedLenECKey
